@@ -111,12 +111,12 @@ func C02(c *core.Ctx) error {
 	var combos []genCombo
 	for _, t := range []string{"testify", "matryer"} {
 		for _, p := range []string{"inpkg-test", "inpkg", "exttest", "separate", "separate-samename"} {
-			combos = append(combos, genCombo{t, core.M{}, "", "gofmt", p})
+			combos = append(combos, genCombo{template: t, data: core.M{}, formatter: "gofmt", placement: p})
 		}
 	}
 	if !quick {
-		combos = append(combos, genCombo{"testify", core.M{"unroll-variadic": true}, "unroll-variadic=true", "goimports", "inpkg-test"},
-			genCombo{"matryer", core.M{"skip-ensure": true, "stub-impl": true, "with-resets": true}, "skip-ensure+stub-impl+with-resets", "noop", "separate"})
+		combos = append(combos, genCombo{template: "testify", data: core.M{"unroll-variadic": true}, dataName: "unroll-variadic=true", formatter: "goimports", placement: "inpkg-test"},
+			genCombo{template: "matryer", data: core.M{"skip-ensure": true, "stub-impl": true, "with-resets": true}, dataName: "skip-ensure+stub-impl+with-resets", formatter: "noop", placement: "separate"})
 	}
 	var mu sync.Mutex
 	decided, assertions, undecided := 0, 0, 0
